@@ -33,6 +33,11 @@ func IsLowerASCII(s string) bool                 { sym(); return false }
 // Deref returns the value a pointer (held in an interface) points to, as an interface value.
 // Arbitrary fills *p with an arbitrary value of its type (string fields of a struct pairwise distinct).
 func Arbitrary(p interface{}, tag string)         { sym() }
+// Override replaces every call of the named function (go/ssa spelling) by the stub (same parameters, receiver
+// first) for the rest of the path: a stated cut. Natively it is a no-op (the real function runs).
+func Override(fn string, stub interface{})       { sym() }
+// Thorough: the run is the thorough tier (harnesses widen their bounds).
+func Thorough() bool                             { sym(); return false }
 func Deref(p interface{}) interface{}            { sym(); return nil }
 func Assume(b bool)                              { sym() }
 func Assert(b bool, id string)                   { sym() }
